@@ -40,7 +40,7 @@ RULE = ("SessionID members on ALL pairs of identities over the CompID alphabet {
         "{A, A->B, B->C, C, ->, empty, FIX.4.2} (exhaustive, 2401: the characters of the printable id, identities that print "
         "identically), random re-splits of one text at different '->', random longer strings; logon histories with such "
         "identities (own CompID containing '->', '-', '>', ':' or BeginString-like text, responses that are a different split of "
-        "the same printable id); logon histories: acceptor with own CompID x Logon SenderCompID x TargetCompID over {A, AB, B} x enforce_compids x "
+        "the same printable id); CompIDs, TargetCompIDs and client names that differ only in letter case; logon histories: acceptor with own CompID x Logon SenderCompID x TargetCompID over {A, AB, B} x enforce_compids x "
         "client list (absent / containing / not containing the sender) x ResetSeqNumFlag (absent / Y), plus ResetSeqNumFlag=N, "
         "reset_sequence_numbers, send/recv_seqnum arguments, other HeartBtInt values, out-of-sequence logons, traffic before the logon, "
         "file persister with restart; initiator with identity x response CompIDs over the alphabet x enforce_compids, plus reset_sequence_numbers / "
@@ -260,6 +260,18 @@ def gen_cases(rng, tier):
         add(acceptor_case(own, "FIX.4.2", own, 1, None, None, follow=True), "acceptor-ambiguous")
         add(initiator_case(own, "FIX.4.2:X", "FIX.4.2:X", own, 1, follow=True), "initiator-ambiguous")
         add(initiator_case(own, "FIX.4.2:X", "X", "FIX.4.2:" + own, 1), "initiator-ambiguous")
+
+    # CompIDs that differ only in letter case are different CompIDs (fix8 has a case-insensitive string match, operator%)
+    CASES = ["SRV", "Srv", "srv"]
+    for own in CASES:
+        for tgt in CASES:
+            for ec in (0, 1):
+                for cl in (None, ["CLI"], ["cli", "Cli"]):
+                    add(acceptor_case(own, "CLI", tgt, ec, cl, rng.choice([None, "Y"]), follow=rng.random() < 0.5), "case-variants")
+    for snd in CASES:
+        for tgt in ["CLI", "Cli", "cli"]:
+            for ec in (0, 1):
+                add(initiator_case("Cli", "Srv", snd, tgt, ec, follow=rng.random() < 0.5), "case-variants")
 
     # (3) initiator: all combinations
     for own_s in IDS:
